@@ -352,3 +352,4 @@ _base_scn_ec = scenarios
 
 def scenarios():
     return _base_scn_ec() + [ecpoint_from_values()]
+
